@@ -169,7 +169,7 @@ def quant(E: Engine, kind, node, st):
     # moved to an outer quantifier (logically equivalent re-nesting)
     qid = "q%d_%s" % (next(E.fresh_n), "_".join(str(v).split("!")[0] for v in vars_))
     try:
-        qid += "_" + ast.unparse(body)[:40].replace(" ", "")
+        qid += "_" + "".join(ch if ch.isalnum() else "_" for ch in ast.unparse(body)[:40])
     except Exception:
         pass
     inner, outer = list(vars_), []
